@@ -41,7 +41,10 @@ def junit_pass(path):
     ok = set()
     for tc in ET.parse(path).getroot().iter("testcase"):
         if not any(ch.tag in ("failure", "error", "skipped") for ch in tc):
-            ok.add("%s::%s" % (tc.get("classname"), tc.get("name")))
+            cn = tc.get("classname")
+            ok.add("%s::%s" % (cn, tc.get("name")))
+            if not cn.startswith("pandapower.test."):              # rootdir = pandapower/test when test paths are given
+                ok.add("pandapower.test.%s::%s" % (cn, tc.get("name")))
     return ok
 
 
@@ -55,7 +58,7 @@ AREAS = [   # changed path prefix -> test packages that exercise it (targeted re
     ("pandapower/topology", ["topology", "toolbox"]), ("pandapower/grid_equivalents", ["grid_equivalents"]),
     ("pandapower/protection", ["protection"]), ("pandapower/diagnostic", ["api"]), ("pandapower/groups", ["toolbox", "api"]),
     ("pandapower/pf/runpp_3ph", ["loadflow"]), ("pandapower/run.py", ["loadflow", "api", "control"]),
-    ("pandapower", ["loadflow", "api", "contingency", "timeseries", "control"]),       # core power flow: pf/, pypower/, build_*, results*
+    ("pandapower", ["loadflow", "api"]),       # core power flow: pf/, pypower/, build_*, results*
 ]
 
 
